@@ -23,7 +23,7 @@ OBLIGATIONS = [NS + t for t in [
     "flat_sites", "tilted_sites", "none_sites", "repo_slope_factor", "repo_sky_table", "sites_names",
 ]]
 # kernels whose translated source text (Gen/Kernels.lean) is proved equal to the model kernel this property's theorems are about
-GEN_KERNELS = ["render_tilted_plane_sky"]
+GEN_KERNELS = ["render_tilted_plane_sky", "tilted_plane_sky_sample"]
 MIRRORED_FILES = ["pysersic/priors.py", "pysersic/pysersic.py"]
 ASSUMPTIONS = [
     "numpyro's reparam/substitute/trace handlers are used to read the model image (modelled semantics, validated by this tie)",
@@ -35,11 +35,12 @@ SKY = ["none", "flat", "tilted-plane"]
 def gen_cases(rng, n):
     cases = []
     for k in range(n):
-        N = int(rng.choice([8, 9, 12, 15, 20]))
+        # stratified: every sky type meets odd and even side lengths within the first dozen cases
+        N = [9, 8, 15, 12, 11, 20][(k // 3) % 6]
         sky = SKY[k % 3]
         cases.append(dict(N=N, sky=sky, kind=["single", "multi"][int(rng.integers(0, 2))], suffix=str(rng.choice(["", "_a", "_7"])),
-                          back=float(rng.normal(0, 5)), xsl=float(rng.normal(0, 0.5)) if rng.random() < 0.8 else 0.0,
-                          ysl=float(rng.normal(0, 0.5)) if rng.random() < 0.8 else 0.0, guess=float(rng.normal(0, 3)) if k % 4 else 0.0,
+                          back=float(rng.normal(0, 5)), xsl=float(rng.normal(0, 0.5)) if (k < 6 or rng.random() < 0.8) else 0.0,
+                          ysl=float(rng.normal(0, 0.5)) if (k < 6 or rng.random() < 0.8) else 0.0, guess=float(rng.normal(0, 3)) if k % 4 else 0.0,
                           mask=str(rng.choice(["none", "random", "half"])),
                           err=float(np.exp(rng.uniform(-3, 1))), psf_sum=float(rng.choice([1.0, 0.7, 1.6])), seed=int(rng.integers(0, 2 ** 31))))
     return cases
